@@ -8,10 +8,13 @@
            every hook except the three lock hooks, every middleware, and every route handler that
            fires no lock hook.
    Part B  the route table: which requests can reach a lock hook ([ckind_of]), and the frame for all
-           the others ([serve_keeps_triples]).
-   Part C  the administrative actions of Step.v.
-   Part D  the requests that do reach a lock hook, as functions of the start state ([req_ops]).
-   Part E  [lock_ops], one step, histories. *)
+           the others ([serve_keeps_triples_lemma]).
+   Part D  the requests that do reach a lock hook, as functions of the start state: a [target] per
+           route ([login_tgt] .. [oauth_tgt], [sms_set_tgt]), read at the level of triples by
+           [triples_by]; all of them together: [req_tgt], [serve_tgt], [serve_triples].
+   Part C  the administrative actions of Step.v (after Part D: it shares the [lk] logic and [step]).
+   Part E  [lock_ops], one step ([step_applies_machine_lemma]), histories ([run_applies_machine_lemma],
+           [world_refines_lemma]), and a concrete history on which every hypothesis holds. *)
 From AB Require Import World.Step Proofs.EvLogic Proofs.Neutral Proofs.MonadInv Proofs.StoreLogic
   Proofs.SameView Proofs.SameView2 Proofs.NoPanic Proofs.Gate Proofs.TwoFactorProofs Proofs.StoreShape
   Proofs.Footprint Proofs.LockWorld.
@@ -793,3 +796,813 @@ Proof.
   - rewrite lrunu_nil. eapply at_pres; [|exact I1|exact Eq]. apply pres_redirect. exact _.
 Qed.
 End Targets.
+
+Section Targets2.
+Variable E : env.
+Hypothesis nofaults : o_faults (e_O E) = [].
+Hypothesis ND : NoDup (c_mods (e_cfg E)).
+Hypothesis HM : has_mod (e_cfg E) MLock = true.
+Notation now := (o_now (e_O E)).
+Notation cfg := (e_cfg E).
+Notation lc := (lcfg_of E).
+Notation vals := (values E).
+Notation FAIL := (LFail (o_now (e_O E))).
+Notation OKB := (LOkBefore (o_now (e_O E))).
+
+(* ---- /oauth2/callback/<provider> --------------------------------------------------------------- *)
+(* the flow reaches the account: the provider is configured, the state parameter is the session's,
+   the provider reported no error and answered the token exchange and the details call *)
+Definition oauth_reaches (prov : bytes) : bool :=
+  bmem prov (c_providers cfg) &&
+  match alookup k_oauth_state (e_sess E) with
+  | Some want =>
+      beqb (form_value E f_state) want && bempty (form_value E f_error) &&
+      pa_exchange_ok (o_provider (e_O E)) && pa_details_ok (o_provider (e_O E))
+  | None => false
+  end.
+
+Definition oauth_tgt (prov : bytes) (us : list (bytes * user)) : target :=
+  if oauth_reaches prov then Some (make_oauth2_pid prov (pa_uid (o_provider (e_O E))), [OKB]) else None.
+
+Lemma oauth_target prov h r h' :
+  oauth2_end E prov h = (r, h') -> keyed (h_st h) -> target_spec E (oauth_tgt prov (users h)) h h'.
+Proof.
+  intros Eq Ky. unfold oauth_tgt, oauth_reaches. unfold oauth2_end in Eq.
+  unfold bind at 1, log at 1, modify at 1 in Eq.
+  destruct (negb (bmem prov (c_providers cfg))) eqn:B1.
+  { apply Bool.negb_true_iff in B1. rewrite B1. cbn [andb target_spec]. inversion Eq; reflexivity. }
+  apply Bool.negb_false_iff in B1. rewrite B1. cbn [andb].
+  destruct (alookup k_oauth_state (e_sess E)) as [want|]; [|cbn [target_spec]; inversion Eq; reflexivity].
+  destruct (negb (beqb (form_value E f_state) want)) eqn:B2.
+  { apply Bool.negb_true_iff in B2. rewrite B2. cbn [andb target_spec]. inversion Eq; reflexivity. }
+  apply Bool.negb_false_iff in B2. rewrite B2. cbn [andb].
+  cbv zeta in Eq. do 2 skip_mod Eq.
+  destruct (negb (bempty (form_value E f_error))) eqn:B3.
+  { apply Bool.negb_true_iff in B3. rewrite B3. cbn [andb target_spec].
+    eapply left_by_pres; [| |exact Eq]; [pres_go|reflexivity]. }
+  apply Bool.negb_false_iff in B3. rewrite B3. cbn [andb].
+  destruct (negb (pa_exchange_ok (o_provider (e_O E)))) eqn:B4.
+  { apply Bool.negb_true_iff in B4. rewrite B4. cbn [andb target_spec]. inversion Eq; reflexivity. }
+  apply Bool.negb_false_iff in B4. rewrite B4. cbn [andb].
+  destruct (negb (pa_details_ok (o_provider (e_O E)))) eqn:B5.
+  { apply Bool.negb_true_iff in B5. rewrite B5. cbn [target_spec]. inversion Eq; reflexivity. }
+  apply Bool.negb_false_iff in B5. rewrite B5.
+  apply bind_inv in Eq as [(x & h1 & E1 & E2)|[(e & E1 & ->)|(E1 & ->)]];
+    apply (new_oauth2_exact E nofaults) in E1 as (R & U1); try discriminate R.
+  inversion R; subst x. clear R.
+  match type of U1 with uc h1 = uc ?hX => change (users hX) with (users h) in E2 end.
+  pose (pa := o_provider (e_O E)). pose (opid := make_oauth2_pid prov (pa_uid pa)).
+  pose (u0 := match ulookup opid (users h) with
+            | Some u => u
+            | None => blank_user <| u_pid := opid |> <| u_ouid := pa_uid pa |> <| u_oprov := prov |>
+                                 <| u_email := pa_email pa |> <| u_confirmed := true |>
+                                 <| u_last := zero_time |> <| u_locked := zero_time |>
+                                 <| u_rexp := zero_time |> <| u_oexp := zero_time |>
+            end).
+  pose (u := u0 <| u_oprov := prov |> <| u_otoken := pa_token pa |> <| u_oexp := pa_expiry pa |>
+              <| u_orefresh := (if bempty (pa_refresh pa) then u_orefresh u0 else pa_refresh pa) |>).
+  fold pa opid in E2. fold u0 in E2. fold u in E2. fold pa opid.
+  assert (Us1 : users h1 = users h) by (unfold uc in U1; inversion U1 as [[A1 A2]]; exact A1).
+  assert (Pk : u_pid u = opid).
+  { change (u_pid u0 = opid). unfold u0. destruct (ulookup opid (users h)) eqn:Lk; [exact (Ky _ _ Lk)|reflexivity]. }
+  unfold bind at 1 in E2. rewrite (backend_nofault E nofaults) in E2. unfold modify at 1 in E2.
+  unfold bind at 1, set_cuser at 1, modify at 1 in E2.
+  exists u. split.
+  { intros a La. change (ltriple u0 = ltriple a). unfold u0. rewrite La. reflexivity. }
+  apply at_applied.
+  match type of E2 with _ ?hS = _ =>
+    assert (I : at_ opid u (users h) hS) end.
+  { apply at_after_save with (h := h); [exact Pk|reflexivity| |reflexivity].
+    change (uput (u_pid u) u (users h1) = uput opid u (users h)). rewrite Us1, Pk. reflexivity. }
+  assert (N1 : EvBeforeOAuth2 <> EvAfterRegister) by discriminate.
+  assert (N2 : EvBeforeOAuth2 <> EvBeforeHijack) by discriminate.
+  destruct (fire_bind E nofaults ND HM EvBeforeOAuth2 false _ _ _ _ _ _ _ N1 N2 I E2) as (b & h2 & I2 & E3).
+  cbn [hooks_of_mod ops_of flat_map hook_op app] in I2.
+  destruct b; [inversion E3; subst; exact I2|].
+  do 2 skip_mod E3.
+  assert (N3 : EvAfterOAuth2 <> EvAfterRegister) by discriminate.
+  assert (N4 : EvAfterOAuth2 <> EvBeforeHijack) by discriminate.
+  match type of E3 with _ ?hh = _ => assert (I3 : at_ opid (lrunu E u [OKB]) (users h) hh)
+    by (eapply at_mod; [exact I2|reflexivity]) end.
+  destruct (fire_bind E nofaults ND HM EvAfterOAuth2 _ _ _ _ _ _ _ _ N3 N4 I3 E3) as (b & h3 & I4 & E4).
+  cbn [hooks_of_mod ops_of flat_map hook_op app] in I4. rewrite lrunu_nil in I4.
+  destruct b; [inversion E4; subst; exact I4|].
+  eapply at_pres; [|exact I4|exact E4]. apply pres_redirect. exact _.
+Qed.
+
+(* ---- /2fa/sms/confirm, /2fa/sms/remove (POST) --------------------------------------------------- *)
+(* whom the access middleware in front of the two settings routes (MountedMiddleware2, a fully
+   authenticated session required) lets through, the request arriving with an empty context *)
+Definition mw_user (us : list (bytes * user)) : option user :=
+  if ahas k_halfauth (e_sess E) then None else
+  if bempty (aget k_uid (e_sess E)) then None else ulookup (aget k_uid (e_sess E)) us.
+
+Lemma pres_mw_fail_false mp fr : pres uc (mw_fail E mp fr ;;; ret false).
+Proof. unfold mw_fail. pres_go. Qed.
+
+Lemma mw_fail_false_res mp fr h r h' : (mw_fail E mp fr ;;; ret false) h = (r, h') -> r <> Ok true.
+Proof.
+  intros Eq. apply bind_inv in Eq as [(a & h1 & E1 & E2)|[(e & E1 & ->)|(E1 & ->)]]; try discriminate.
+  inversion E2; subst. discriminate.
+Qed.
+
+Lemma auth_mw_exact fr h r h' :
+  h_cuser h = None -> h_cpid h = None -> auth_middleware E true true false fr h = (r, h') ->
+  users h' = users h /\
+  match mw_user (users h) with
+  | Some u => r = Ok true /\ h_cuser h' = Some u
+  | None => r <> Ok true
+  end.
+Proof.
+  intros Hc Hp Eq. unfold auth_middleware in Eq. unfold mw_user.
+  destruct (ahas k_halfauth (e_sess E)); cbn [andb orb] in Eq.
+  { split; [eapply left_by_pres; [apply pres_mw_fail_false|reflexivity|exact Eq]|eapply mw_fail_false_res; exact Eq]. }
+  unfold try, load_current_user in Eq. unfold bind at 1, get_h at 1 in Eq. rewrite Hc in Eq.
+  unfold bind at 1, current_user_id at 1 in Eq. unfold bind at 1, get_h at 1 in Eq. rewrite Hp in Eq.
+  unfold ret at 1 in Eq.
+  destruct (bempty (aget k_uid (e_sess E))).
+  { unfold fail at 1 in Eq.
+    split; [eapply left_by_pres; [apply pres_mw_fail_false|reflexivity|exact Eq]|eapply mw_fail_false_res; exact Eq]. }
+  unfold bind at 1, set_cpid at 1, modify at 1 in Eq.
+  unfold bind at 1 in Eq. rewrite (st_load_nofault E nofaults) in Eq. cbn [h_st set] in Eq.
+  change (s_users (h_st h)) with (users h) in Eq.
+  destruct (ulookup (aget k_uid (e_sess E)) (users h)) as [u|].
+  - unfold bind at 1, set_cuser at 1, modify at 1 in Eq. inversion Eq; subst. repeat split; reflexivity.
+  - split; [eapply left_by_pres; [apply pres_mw_fail_false| |exact Eq]; reflexivity|eapply mw_fail_false_res; exact Eq].
+Qed.
+
+Lemma behind_exact hd h r h' :
+  h_cuser h = None -> h_cpid h = None -> behind E true hd h = (r, h') ->
+  match mw_user (users h) with
+  | Some u => exists h1, users h1 = users h /\ h_cuser h1 = Some u /\ hd h1 = (r, h')
+  | None => users h' = users h
+  end.
+Proof.
+  intros Hc Hp Eq. unfold behind in Eq.
+  apply bind_inv in Eq as [(a & h1 & E1 & E2)|[(e & E1 & ->)|(E1 & ->)]];
+    destruct (auth_mw_exact _ _ _ _ Hc Hp E1) as (Us & M); destruct (mw_user (users h)) as [u|].
+  - destruct M as (R & Cu). inversion R; subst a. exists h1. auto.
+  - destruct a; [exfalso; apply M; reflexivity|]. inversion E2; subst. exact Us.
+  - destruct M as (R & _). discriminate R.
+  - exact Us.
+  - destruct M as (R & _). discriminate R.
+  - exact Us.
+Qed.
+
+(* EmailVerify.Wrap lets the request through *)
+Definition ev_pass : bool := negb (c_email_auth cfg) || beqb (aget k_2fa_authed (e_sess E)) v_true.
+
+Lemma pres_email_verify_wrap k : pres uc (email_verify_wrap E k).
+Proof. unfold email_verify_wrap. pres_go. Qed.
+
+Lemma ev_wrap_exact k hd h r h' :
+  (ok <- email_verify_wrap E k ;; if ok then hd else ret tt) h = (r, h') ->
+  if ev_pass then hd h = (r, h') else uc h' = uc h.
+Proof.
+  intros Eq. unfold ev_pass. destruct (negb (c_email_auth cfg)) eqn:B1; cbn [orb].
+  { unfold email_verify_wrap in Eq. rewrite B1 in Eq. exact Eq. }
+  destruct (beqb (aget k_2fa_authed (e_sess E)) v_true) eqn:B2.
+  { unfold email_verify_wrap in Eq. rewrite B1, B2 in Eq. exact Eq. }
+  apply bind_inv in Eq as [(a & h1 & E1 & E2)|[(e & E1 & ->)|(E1 & ->)]];
+    pose proof (pres_email_verify_wrap k _ _ _ E1) as U; try exact U.
+  unfold email_verify_wrap in E1. rewrite B1, B2 in E1.
+  apply bind_inv in E1 as [(a1 & h2 & F1 & F2)|[(e & F1 & F2)|(F1 & F2)]]; try discriminate F2.
+  inversion F2; subst. inversion E2; subst. exact U.
+Qed.
+
+(* the validator's verdict on the two settings pages: the code (or, on the removal page, the recovery
+   code) was compared and is wrong *)
+Definition sms_set_rejected (p : smspage) (u : user) : bool :=
+  let input := aget f_code vals in
+  let rc := match p with SPConfirm => [] | _ => aget f_recovery_code vals end in
+  if bempty rc && bempty input then false
+  else if negb (bempty rc) then
+    match use_recovery_code E (decode_codes (u_recovery u)) rc with Some _ => false | None => true end
+  else
+    let code := aget k_sms_secret (e_sess E) in
+    if bempty code then false else
+    negb (beqb input code &&
+          match alookup k_sms_secret_number (e_sess E) with
+          | Some sent => beqb sent (match p with SPConfirm => aget k_sms_number (e_sess E) | _ => u_sms u end)
+          | None => true
+          end).
+
+Ltac lkgo := repeat (lk_unfold; cbn beta iota zeta; lk_step lk_ext2); cbn beta; lk_side.
+
+Lemma sms_reject_tail p h r h' u :
+  h_cuser h = Some u -> ulookup (u_pid u) (users h) = Some u ->
+  (set_cuser u ;;;
+   handled <- fire E EvAfterAuthFail false ;;
+   if handled then ret tt else
+   log [u_pid u] ;;; respond E (smspage_name p) [(bs "errors", DOther)]) h = (r, h') ->
+  applied E (u_pid u) u [FAIL] h h'.
+Proof.
+  intros Hc Lu F. unfold bind at 1, set_cuser at 1, modify at 1 in F.
+  apply (fail_part E nofaults ND HM) with (P := u_pid u) (w := u) (L := users h) in F as (R2 & I).
+  - apply at_applied. exact I.
+  - apply log_respond_pres.
+  - intros h0 r0 h0'. apply (log_respond_res E nofaults).
+  - apply at_intro; [reflexivity|reflexivity|exact Lu|reflexivity].
+Qed.
+
+Lemma sms_set_body p h r h' u :
+  p <> SPValidate -> filed (h_st h) -> h_cuser h = Some u -> ulookup (u_pid u) (users h) = Some u ->
+  sms_validator_post E p h = (r, h') ->
+  if readable E && sms_set_rejected p u then applied E (u_pid u) u [FAIL] h h'
+  else keeps_triples (h_st h) (h_st h').
+Proof.
+  intros Np Fl Hc Lu Eq.
+  assert (I0 : linv (users h) h).
+  { apply linv_start; [exact Fl|]. intros u1 H1. rewrite Hc in H1. inversion H1; subst u1. exact Lu. }
+  assert (G0 : lgood (users h) u) by exact (li_cuser _ _ I0 _ Hc).
+  assert (KEEP : forall hx, linv (users h) hx -> keeps_triples (h_st h) (h_st hx)).
+  { intros hx Ix. apply linv_end in Ix as (_ & Ix). exact Ix. }
+  unfold sms_validator_post in Eq. unfold bind at 1, try in Eq. rewrite (current_user_ctx E h u Hc) in Eq.
+  unfold ret at 1 in Eq. cbn beta iota in Eq.
+  destruct (readable E) eqn:Rd; cbn [andb].
+  2: { rewrite (unreadable_bind E _ h Rd) in Eq. inversion Eq; subst. apply keeps_triples_refl. }
+  destruct (readable_true E Rd) as (Bb & Api).
+  unfold bind at 1 in Eq. rewrite (read_values_ok E h Bb Api) in Eq. cbv zeta in Eq.
+  unfold sms_set_rejected. cbv zeta.
+  assert (TAIL : forall rc input,
+            sms_validate_code E p u true input rc h = (r, h') ->
+            if (if negb (bempty rc) then
+                  match use_recovery_code E (decode_codes (u_recovery u)) rc with Some _ => false | None => true end
+                else if bempty (aget k_sms_secret (e_sess E)) then false else
+                     negb (beqb input (aget k_sms_secret (e_sess E)) &&
+                           match alookup k_sms_secret_number (e_sess E) with
+                           | Some sent => beqb sent (match p with SPConfirm => aget k_sms_number (e_sess E) | _ => u_sms u end)
+                           | None => true
+                           end))
+            then applied E (u_pid u) u [FAIL] h h' else keeps_triples (h_st h) (h_st h')).
+  { clear Eq. intros rc input Eq. unfold sms_validate_code in Eq.
+    match type of Eq with bind ?m _ _ = _ =>
+      assert (LV : lk (users h) (fun vu => lgood (users h) (snd vu)) m) end.
+    { lkgo; cbn [snd]; lk_side. }
+    assert (ACC : forall u2 h1, linv (users h) h1 -> lgood (users h) u2 ->
+              (match p with
+               | SPConfirm =>
+                   match alookup k_sms_number (e_sess E) with
+                   | None => fail ErrOther
+                   | Some phone =>
+                       codes <- generate_recovery_codes ;;
+                       crypted <- bcrypt_codes E codes ;;
+                       let u' := u2 <| u_sms := phone |> <| u_recovery := encode_codes crypted |> in
+                       store_back u' true ;;;
+                       st_save (e_O E) u' ;;;
+                       del_session k_2fa_authed ;;; del_session k_sms_secret ;;; del_session k_sms_secret_number ;;;
+                       del_session k_sms_number ;;;
+                       log [u_pid u2] ;;;
+                       set_cuser u' ;;;
+                       respond E (bs "sms2fa_confirm_success") [(bs "recovery_codes", DList codes)]
+                   end
+               | SPRemove =>
+                   let u' := u2 <| u_sms := [] |> in
+                   store_back u' true ;;;
+                   st_save (e_O E) u' ;;;
+                   del_session k_twofactor ;;;
+                   set_cuser u' ;;;
+                   log [u_pid u2] ;;;
+                   respond E (bs "sms2fa_remove_success") []
+               | SPValidate => ret tt
+               end) h1 = (r, h') -> keeps_triples (h_st h) (h_st h')).
+    { intros u2 h1 I1 G2 F.
+      match type of F with ?m h1 = _ => assert (LA : lk (users h) anyq m) end.
+      { destruct p; [| |apply lk_ret; exact I]; unfold generate_recovery_codes; lkgo. }
+      destruct (LA _ _ _ I1 F) as (I2 & _). exact (KEEP _ I2). }
+    apply bind_inv in Eq as [(vu & h1 & E1 & E2)|[(e & E1 & ->)|(E1 & ->)]].
+    2,3: destruct (LV _ _ _ I0 E1) as (I1 & _);
+         (destruct (negb (bempty rc));
+          [destruct (use_recovery_code E (decode_codes (u_recovery u)) rc)
+          |destruct (bempty (aget k_sms_secret (e_sess E)))]); try exact (KEEP _ I1);
+         inversion E1.
+    destruct (LV _ _ _ I0 E1) as (I1 & G1). specialize (G1 vu eq_refl). cbn beta in G1.
+    destruct (negb (bempty rc)).
+    - destruct (use_recovery_code E (decode_codes (u_recovery u)) rc) as [rest|].
+      + assert (fst vu = true) as Fv.
+        { apply bind_inv in E1 as [(a1 & g1 & F1 & F2)|[(e & F1 & F2)|(F1 & F2)]]; try discriminate F2.
+          apply bind_inv in F2 as [(a2 & g2 & F3 & F4)|[(e & F3 & F4)|(F3 & F4)]]; try discriminate F4.
+          apply bind_inv in F4 as [(a3 & g3 & F5 & F6)|[(e & F5 & F6)|(F5 & F6)]]; try discriminate F6.
+          inversion F6; reflexivity. }
+        destruct vu as [b u2]. cbn [fst snd] in *. subst b. cbn [negb] in E2.
+        destruct p; [| |exfalso; apply Np; reflexivity]; exact (ACC _ _ I1 G1 E2).
+      + inversion E1; subst vu h1. cbn [negb] in E2. exact (sms_reject_tail p h r h' u Hc Lu E2).
+    - destruct (bempty (aget k_sms_secret (e_sess E))); [inversion E1|].
+      inversion E1; subst vu h1. clear E1.
+      match type of E2 with context [negb ?b] => destruct b end; cbn [negb] in E2 |- *.
+      + destruct p; [| |exfalso; apply Np; reflexivity]; exact (ACC _ _ I1 G1 E2).
+      + exact (sms_reject_tail p h r h' u Hc Lu E2). }
+  destruct p; [| |exfalso; apply Np; reflexivity].
+  - (* confirm: no recovery code on this page *)
+    change (bempty []) with true in *. cbn [andb negb] in Eq |- *.
+    destruct (bempty (aget f_code vals)).
+    + apply (pres_sms_send_code E SPConfirm u) in Eq. unfold uc in Eq. inversion Eq as [[A1 A2]].
+      intros q b Hq. exists b. unfold users in *. rewrite A1. auto.
+    + apply (TAIL [] (aget f_code vals)) in Eq. exact Eq.
+  - destruct (bempty (aget f_recovery_code vals)) eqn:Brc; cbn [andb negb] in Eq |- *.
+    + destruct (bempty (aget f_code vals)).
+      * apply (pres_sms_send_code E SPRemove u) in Eq. unfold uc in Eq. inversion Eq as [[A1 A2]].
+        intros q b Hq. exists b. unfold users in *. rewrite A1. auto.
+      * apply (TAIL [] (aget f_code vals)) in Eq. exact Eq.
+    + apply (TAIL (aget f_recovery_code vals) []) in Eq. rewrite Brc in Eq. cbn [negb] in Eq. exact Eq.
+Qed.
+
+(* ---- the triple-level reading of a target ------------------------------------------------------- *)
+(* the operations target t applies to account P *)
+Definition t_ops (t : target) (P : bytes) : list lop :=
+  match t with Some (P0, ops) => if beqb P P0 then ops else [] | None => [] end.
+
+(* every account of the table us is still in us', its triple the machine run over [t_ops t] *)
+Definition triples_by (t : target) (us us' : list (bytes * user)) : Prop :=
+  forall P u, ulookup P us = Some u ->
+    exists u', ulookup P us' = Some u' /\ ltriple u' = lrun lc (ltriple u) (t_ops t P).
+
+Lemma triples_of_eq us us' : us' = us -> triples_by None us us'.
+Proof. intros -> P u Lu. exists u. split; [exact Lu|reflexivity]. Qed.
+
+Lemma triples_of_keeps s s' : keeps_triples s s' -> triples_by None (s_users s) (s_users s').
+Proof. intros K P u Lu. destruct (K P u Lu) as (u' & L' & T'). exists u'. split; [exact L'|exact T']. Qed.
+
+Lemma triples_of_target t h h' : target_spec E t h h' -> triples_by t (users h) (users h').
+Proof.
+  destruct t as [[P0 ops]|]; cbn [target_spec].
+  - intros (u0' & Lt & A1 & A2) P u Lu. cbn [t_ops]. destruct (beqb P P0) eqn:Eb.
+    + apply beqb_eq in Eb. subst P0. eexists. split; [exact A1|]. rewrite ltriple_set, (Lt u Lu). reflexivity.
+    + apply beqb_neq in Eb. exists u. split; [rewrite (A2 P Eb); exact Lu|reflexivity].
+  - intros Us. apply triples_of_eq. exact Us.
+Qed.
+
+Lemma triples_of_applied P u ops h h' :
+  ulookup P (users h) = Some u -> applied E P u ops h h' -> triples_by (Some (P, ops)) (users h) (users h').
+Proof. intros Lu A. apply triples_of_target. eapply tspec_applied; [exact Lu|reflexivity|exact A]. Qed.
+
+Definition sms_set_tgt (p : smspage) (us : list (bytes * user)) : target :=
+  match mw_user us with
+  | Some u =>
+      if (match p with SPConfirm => ev_pass | _ => true end) && (readable E && sms_set_rejected p u)
+      then Some (aget k_uid (e_sess E), [FAIL]) else None
+  | None => None
+  end.
+
+Lemma mw_user_lookup us u : mw_user us = Some u -> ulookup (aget k_uid (e_sess E)) us = Some u.
+Proof.
+  unfold mw_user. destruct (ahas k_halfauth (e_sess E)); [discriminate|].
+  destruct (bempty (aget k_uid (e_sess E))); [discriminate|]. auto.
+Qed.
+
+Lemma sms_set_after_mw p h h1 r h' u :
+  p <> SPValidate -> filed (h_st h) -> mw_user (users h) = Some u ->
+  users h1 = users h -> h_cuser h1 = Some u -> sms_validator_post E p h1 = (r, h') ->
+  triples_by (if readable E && sms_set_rejected p u then Some (aget k_uid (e_sess E), [FAIL]) else None)
+             (users h) (users h').
+Proof.
+  intros Np Fl Mu Us Cu F. apply mw_user_lookup in Mu.
+  assert (Pk : u_pid u = aget k_uid (e_sess E)) by (apply (filed_keyed _ Fl); exact Mu).
+  assert (Fl1 : filed (h_st h1)) by (unfold filed; change (s_users (h_st h1)) with (users h1); rewrite Us; exact Fl).
+  assert (Lu1 : ulookup (u_pid u) (users h1) = Some u) by (rewrite Us, Pk; exact Mu).
+  pose proof (sms_set_body p h1 r h' u Np Fl1 Cu Lu1 F) as B.
+  destruct (readable E && sms_set_rejected p u).
+  - rewrite <- Us, <- Pk. exact (triples_of_applied _ u _ _ _ Lu1 B).
+  - rewrite <- Us. apply (triples_of_keeps _ _ B).
+Qed.
+
+Lemma sms_set_target p h r h' :
+  p <> SPValidate -> filed (h_st h) -> h_cuser h = None -> h_cpid h = None ->
+  chandler E (CSms p) h = (r, h') -> triples_by (sms_set_tgt p (users h)) (users h) (users h').
+Proof.
+  intros Np Fl Hc Hp Eq. unfold sms_set_tgt. destruct p; [| |exfalso; apply Np; reflexivity].
+  - cbn [chandler] in Eq. unfold verified in Eq. apply (behind_exact _ _ _ _ Hc Hp) in Eq.
+    destruct (mw_user (users h)) as [u|] eqn:Mu; [|apply triples_of_eq; exact Eq].
+    destruct Eq as (h1 & Us & Cu & F). apply ev_wrap_exact in F. destruct ev_pass; cbn [andb].
+    + exact (sms_set_after_mw SPConfirm h h1 r h' u Np Fl Mu Us Cu F).
+    + apply triples_of_eq. rewrite <- Us. exact (uc_users _ _ F).
+  - cbn [chandler] in Eq. apply (behind_exact _ _ _ _ Hc Hp) in Eq.
+    destruct (mw_user (users h)) as [u|] eqn:Mu; [|apply triples_of_eq; exact Eq].
+    destruct Eq as (h1 & Us & Cu & F). cbn [andb].
+    exact (sms_set_after_mw SPRemove h h1 r h' u Np Fl Mu Us Cu F).
+Qed.
+
+(* ---- all the credential routes --------------------------------------------------------------- *)
+Definition req_tgt (k : ckind) (us : list (bytes * user)) : target :=
+  match k with
+  | CLogin => login_tgt E us
+  | COtp => otp_tgt E us
+  | CTotp => totp_tgt E us
+  | CSms SPValidate => sms_tgt E us
+  | CSms p => sms_set_tgt p us
+  | CRecover => recover_tgt E us
+  | COAuth prov => oauth_tgt prov us
+  end.
+
+Lemma req_target k h r h' :
+  filed (h_st h) -> h_cuser h = None -> h_cpid h = None ->
+  chandler E k h = (r, h') -> triples_by (req_tgt k (users h)) (users h) (users h').
+Proof.
+  intros Fl Hc Hp Eq. pose proof (filed_keyed _ Fl) as Ky. destruct k as [| | |p| |prov]; cbn [req_tgt].
+  - apply triples_of_target. exact (login_target E nofaults ND HM h r h' Eq Ky).
+  - apply triples_of_target. exact (otp_target E nofaults ND HM h r h' Eq Ky).
+  - apply triples_of_target. exact (totp_target E nofaults ND HM h r h' Eq Hc Hp Ky).
+  - destruct p.
+    + apply sms_set_target with (r := r); auto; discriminate.
+    + apply sms_set_target with (r := r); auto; discriminate.
+    + apply triples_of_target. exact (sms_target E nofaults ND HM h r h' Eq Hc Hp Ky).
+  - apply triples_of_target. exact (recover_target E nofaults ND HM h r h' Eq Fl).
+  - apply triples_of_target. exact (oauth_target prov h r h' Eq Ky).
+Qed.
+End Targets2.
+
+(* the error handler around a route handler does not touch the user table *)
+Lemma weh_users E hd h r h' :
+  with_error_handler E hd h = (r, h') -> exists r1 h1, hd h = (r1, h1) /\ users h' = users h1.
+Proof.
+  intros Eq. unfold with_error_handler in Eq.
+  apply try_inv in Eq as [(x & h1 & E1 & NP & E2)|(E1 & ->)].
+  - exists x, h1. split; [exact E1|]. destruct x as [a|e|]; [inversion E2; reflexivity| |congruence].
+    eapply left_by_pres; [| |exact E2]; [pres_go|reflexivity].
+  - exists Panic, h'. split; [exact E1|reflexivity].
+Qed.
+
+(* one request, at the level of [serve]: the route's target, or nothing *)
+Definition serve_tgt (E : env) (us : list (bytes * user)) : target :=
+  match ckind_of (e_cfg E) (e_req E) with Some k => req_tgt E k us | None => None end.
+
+Lemma serve_triples E h r h' :
+  o_faults (e_O E) = [] -> NoDup (c_mods (e_cfg E)) -> has_mod (e_cfg E) MLock = true ->
+  filed (h_st h) -> h_cuser h = None -> h_cpid h = None -> serve E h = (r, h') ->
+  filed (h_st h') /\ triples_by E (serve_tgt E (users h)) (users h) (users h').
+Proof.
+  intros NF ND HM Fl Hc Hp Eq. split.
+  { exact (proj1 (serve_keeps_shape E h r h' Fl (ctx_stored_none h Hc) Eq)). }
+  unfold serve_tgt. destruct (ckind_of (e_cfg E) (e_req E)) as [k|] eqn:CK.
+  - unfold serve in Eq. rewrite (route_cred E k CK) in Eq.
+    apply weh_users in Eq as (r1 & h1 & F & Us). rewrite Us.
+    exact (req_target E NF ND HM k h r1 h1 Fl Hc Hp F).
+  - destruct (serve_keeps_triples_lemma E CK h r h' Fl (ctx_stored_none h Hc) Eq) as (_ & K).
+    exact (triples_of_keeps E _ _ K).
+Qed.
+
+(* ================================================================================================ *)
+(* Part C: the administrative actions of Step.v                                                     *)
+(* ================================================================================================ *)
+Definition lc_of (cfg : config) : lcfg := mkLcfg (c_lock_after cfg) (c_lock_window cfg) (c_lock_duration cfg).
+
+Section Admin.
+Variable C : crypto.
+Variable cfg : config.
+
+Ltac lkgo := repeat (lk_unfold; cbn beta iota zeta; lk_step lk_ext2); cbn beta; lk_side.
+
+(* UpdatePassword and StartConfirmation keep every lock triple, whatever the backend does *)
+Lemma lk_admin_update_password U0 O pid pw : lk U0 anyq (admin C cfg O (AUpdatePassword pid pw)).
+Proof. unfold admin. cbv zeta. lkgo. Qed.
+Lemma lk_admin_start_confirm U0 O pid : lk U0 anyq (admin C cfg O (AStartConfirm pid)).
+Proof. unfold admin, send_mail. cbv zeta. lkgo. Qed.
+
+(* the storage a step leaves *)
+Lemma step_req_st w req O :
+  w_st (fst (step C cfg w (AReq req) O)) =
+  h_st (snd (serve (mkEnv C cfg O req (jar_get (q_browser req) (w_cook w)) (jar_get (q_browser req) (w_sess w)))
+                   (init_hst (w_st w) O))).
+Proof.
+  unfold step. cbv zeta. destruct (serve _ _) as [r0 h]. cbn [fst snd]. destruct (h_out h); reflexivity.
+Qed.
+
+Definition is_admin (a : action) : Prop :=
+  match a with AReq _ | APlant _ _ _ | ASetJar _ _ _ => False | _ => True end.
+
+Lemma step_admin_st w a O : is_admin a ->
+  w_st (fst (step C cfg w a O)) = h_st (snd (admin C cfg O a (init_hst (w_st w) O))).
+Proof.
+  intros Ia. destruct a; try (exfalso; exact Ia); unfold step; destruct (admin _ _ _ _ _) as [r0 h]; reflexivity.
+Qed.
+
+Lemma step_jar_st w a O : (match a with APlant _ _ _ | ASetJar _ _ _ => True | _ => False end) ->
+  w_st (fst (step C cfg w a O)) = w_st w.
+Proof. intros Ia. destruct a; try (exfalso; exact Ia); [reflexivity|]. destruct cookie; reflexivity. Qed.
+
+(* lock.Lock / lock.Unlock: one machine operation on the named account, nothing else *)
+Lemma admin_lock_exact O pid op h r h' :
+  o_faults O = [] ->
+  (u <- st_load O pid ;; st_save O (lock_apply (mkEnv C cfg O null_request [] []) u op)) h = (r, h') ->
+  match ulookup pid (users h) with
+  | Some u => users h' = uput (u_pid u) (set_ltriple u (lstep (lc_of cfg) (ltriple u) op)) (users h)
+  | None => users h' = users h
+  end.
+Proof.
+  intros NF Eq. pose (E := mkEnv C cfg O null_request [] []).
+  unfold bind in Eq. rewrite (st_load_nofault E NF) in Eq. fold (users h) in Eq.
+  destruct (ulookup pid (users h)) as [u|].
+  - rewrite (st_save_nofault E NF) in Eq. inversion Eq; subst. reflexivity.
+  - inversion Eq; subst. reflexivity.
+Qed.
+
+Lemma step_lock_or_unlock w pid O a op :
+  (a = ALock pid /\ op = LManualLock (o_now O)) \/ (a = AUnlock pid /\ op = LUnlock (o_now O)) ->
+  o_faults O = [] -> keyed (w_st w) ->
+  let w' := fst (step C cfg w a O) in
+  (forall u, ulookup pid (s_users (w_st w)) = Some u ->
+     ulookup pid (s_users (w_st w')) = Some (set_ltriple u (lstep (lc_of cfg) (ltriple u) op))) /\
+  (forall p, p <> pid -> ulookup p (s_users (w_st w')) = ulookup p (s_users (w_st w))) /\
+  (ulookup pid (s_users (w_st w)) = None -> s_users (w_st w') = s_users (w_st w)).
+Proof.
+  intros Ha NF Ky w'. subst w'.
+  assert (Ia : is_admin a) by (destruct Ha as [(-> & _)|(-> & _)]; exact I).
+  rewrite (step_admin_st w a O Ia).
+  destruct (admin C cfg O a (init_hst (w_st w) O)) as [r h'] eqn:Ea. cbn [snd].
+  assert (X : match ulookup pid (s_users (w_st w)) with
+              | Some u => s_users (h_st h') = uput (u_pid u) (set_ltriple u (lstep (lc_of cfg) (ltriple u) op)) (s_users (w_st w))
+              | None => s_users (h_st h') = s_users (w_st w)
+              end).
+  { destruct Ha as [(-> & ->)|(-> & ->)]; unfold admin in Ea; cbv zeta in Ea;
+      exact (admin_lock_exact O pid _ _ _ _ NF Ea). }
+  destruct (ulookup pid (s_users (w_st w))) as [u|] eqn:Lu.
+  - pose proof (Ky _ _ Lu) as Pk. rewrite X, Pk. repeat split.
+    + intros u1 H1. inversion H1; subst u1. apply ulookup_uput_eq.
+    + intros p Np. apply ulookup_uput_neq. exact Np.
+    + discriminate.
+  - rewrite X. repeat split; auto. discriminate.
+Qed.
+
+Theorem admin_lock_lemma w pid O :
+  o_faults O = [] -> keyed (w_st w) ->
+  let w' := fst (step C cfg w (ALock pid) O) in
+  (forall u, ulookup pid (s_users (w_st w)) = Some u ->
+     ulookup pid (s_users (w_st w')) = Some (set_ltriple u (lstep (lc_of cfg) (ltriple u) (LManualLock (o_now O))))) /\
+  (forall p, p <> pid -> ulookup p (s_users (w_st w')) = ulookup p (s_users (w_st w))) /\
+  (ulookup pid (s_users (w_st w)) = None -> s_users (w_st w') = s_users (w_st w)).
+Proof. apply step_lock_or_unlock. left. split; reflexivity. Qed.
+
+Theorem admin_unlock_lemma w pid O :
+  o_faults O = [] -> keyed (w_st w) ->
+  let w' := fst (step C cfg w (AUnlock pid) O) in
+  (forall u, ulookup pid (s_users (w_st w)) = Some u ->
+     ulookup pid (s_users (w_st w')) = Some (set_ltriple u (lstep (lc_of cfg) (ltriple u) (LUnlock (o_now O))))) /\
+  (forall p, p <> pid -> ulookup p (s_users (w_st w')) = ulookup p (s_users (w_st w))) /\
+  (ulookup pid (s_users (w_st w)) = None -> s_users (w_st w') = s_users (w_st w)).
+Proof. apply step_lock_or_unlock. right. split; reflexivity. Qed.
+
+(* the harness's direct write: the named record becomes exactly the seeded one - whatever triple it
+   carries - and no other record changes *)
+Theorem admin_seed_lemma w su rm O :
+  let w' := fst (step C cfg w (ASeed su rm) O) in
+  ulookup (u_pid su) (s_users (w_st w')) = Some su /\
+  (forall p, p <> u_pid su -> ulookup p (s_users (w_st w')) = ulookup p (s_users (w_st w))).
+Proof.
+  cbv zeta. rewrite (step_admin_st w (ASeed su rm) O I). cbn [admin modify snd h_st init_hst set s_users].
+  split; [apply ulookup_uput_eq|]. intros p Np. apply ulookup_uput_neq. exact Np.
+Qed.
+
+(* the actions that are neither a request, a lock / unlock nor a seed keep every lock triple, faults
+   or not *)
+Definition quiet (a : action) : Prop :=
+  match a with
+  | AUpdatePassword _ _ | AStartConfirm _ | APlant _ _ _ | ASetJar _ _ _ => True
+  | _ => False
+  end.
+
+Theorem admin_keeps_triples_lemma w a O :
+  quiet a -> filed (w_st w) -> keeps_triples (w_st w) (w_st (fst (step C cfg w a O))).
+Proof.
+  intros Qa Fl.
+  assert (ADM : is_admin a -> (forall U0, lk U0 anyq (admin C cfg O a)) ->
+                keeps_triples (w_st w) (w_st (fst (step C cfg w a O)))).
+  { intros Ia LK. rewrite (step_admin_st w a O Ia).
+    destruct (admin C cfg O a (init_hst (w_st w) O)) as [r h'] eqn:Ea. cbn [snd].
+    exact (proj2 (keeps_of_lk anyq _ LK (init_hst (w_st w) O) r h' Fl (ctx_stored_none (init_hst (w_st w) O) eq_refl) Ea)). }
+  destruct a; try (exfalso; exact Qa).
+  - apply ADM; [exact I|intros U0; apply lk_admin_update_password].
+  - apply ADM; [exact I|intros U0; apply lk_admin_start_confirm].
+  - rewrite step_jar_st by exact I. apply keeps_triples_refl.
+  - rewrite step_jar_st by exact I. apply keeps_triples_refl.
+Qed.
+
+(* [filed] (hence [keyed]) is an invariant of [step], seeds included *)
+Theorem step_filed_lemma w a O : filed (w_st w) -> filed (w_st (fst (step C cfg w a O))).
+Proof.
+  intros Fl. destruct a as [req|pid|pid|pid pw|pid|su rm|b k v|ck b j].
+  6: { rewrite (step_admin_st w (ASeed su rm) O I). cbn [admin modify snd h_st init_hst set s_users].
+       unfold filed. cbn [s_users]. apply filedl_uput. exact Fl. }
+  all: destruct (step C cfg w _ O) as [w' o] eqn:St; cbn [fst];
+       refine (proj1 (step_shape C cfg w _ O w' o _ Fl St)); intros H; exact H.
+Qed.
+
+(* ================================================================================================ *)
+(* Part E: one step, histories                                                                      *)
+(* ================================================================================================ *)
+Definition env_of (w : world) (req : request) (O : oracle) : env :=
+  mkEnv C cfg O req (jar_get (q_browser req) (w_cook w)) (jar_get (q_browser req) (w_sess w)).
+
+(* the machine operations action [a], taken in world [w] under oracle [O], applies to account P *)
+Definition lock_ops (w : world) (a : action) (O : oracle) (P : bytes) : list lop :=
+  match a with
+  | AReq req => t_ops (serve_tgt (env_of w req O) (s_users (w_st w))) P
+  | ALock pid => if beqb P pid then [LManualLock (o_now O)] else []
+  | AUnlock pid => if beqb P pid then [LUnlock (o_now O)] else []
+  | _ => []
+  end.
+
+(* a seed over an existing record carries that record's triple (a seed of a new account is free) *)
+Definition seed_keeps (w : world) (a : action) : Prop :=
+  match a with
+  | ASeed su _ => forall u0, ulookup (u_pid su) (s_users (w_st w)) = Some u0 -> ltriple su = ltriple u0
+  | _ => True
+  end.
+
+Theorem step_applies_machine_lemma w a O :
+  NoDup (c_mods cfg) -> has_mod cfg MLock = true -> o_faults O = [] -> filed (w_st w) -> seed_keeps w a ->
+  forall P u, ulookup P (s_users (w_st w)) = Some u ->
+  exists u', ulookup P (s_users (w_st (fst (step C cfg w a O)))) = Some u' /\
+             ltriple u' = lrun (lc_of cfg) (ltriple u) (lock_ops w a O P).
+Proof.
+  intros ND HM NF Fl Sk P u Lu.
+  assert (QUIET : quiet a -> lock_ops w a O P = [] ->
+            exists u', ulookup P (s_users (w_st (fst (step C cfg w a O)))) = Some u' /\
+                       ltriple u' = lrun (lc_of cfg) (ltriple u) (lock_ops w a O P)).
+  { intros Qa ->. exact (admin_keeps_triples_lemma w a O Qa Fl P u Lu). }
+  assert (LOCK : forall pid op,
+            (a = ALock pid /\ op = LManualLock (o_now O)) \/ (a = AUnlock pid /\ op = LUnlock (o_now O)) ->
+            lock_ops w a O P = (if beqb P pid then [op] else []) ->
+            exists u', ulookup P (s_users (w_st (fst (step C cfg w a O)))) = Some u' /\
+                       ltriple u' = lrun (lc_of cfg) (ltriple u) (lock_ops w a O P)).
+  { intros pid op Ha ->. destruct (step_lock_or_unlock w pid O a op Ha NF (filed_keyed _ Fl)) as (A1 & A2 & _).
+    destruct (beqb P pid) eqn:Eb.
+    - apply beqb_eq in Eb. subst pid. eexists. split; [exact (A1 u Lu)|]. apply ltriple_set.
+    - apply beqb_neq in Eb. exists u. split; [rewrite (A2 P Eb); exact Lu|reflexivity]. }
+  destruct a as [req|pid|pid|pid pw|pid|su rm|b k v|ck b j].
+  - (* a request *)
+    rewrite step_req_st. fold (env_of w req O).
+    destruct (serve (env_of w req O) (init_hst (w_st w) O)) as [r h'] eqn:Sv. cbn [snd].
+    destruct (serve_triples (env_of w req O) (init_hst (w_st w) O) r h' NF ND HM Fl eq_refl eq_refl Sv) as (_ & T).
+    exact (T P u Lu).
+  - apply (LOCK pid (LManualLock (o_now O))); [left; split; reflexivity|reflexivity].
+  - apply (LOCK pid (LUnlock (o_now O))); [right; split; reflexivity|reflexivity].
+  - apply QUIET; [exact I|reflexivity].
+  - apply QUIET; [exact I|reflexivity].
+  - destruct (admin_seed_lemma w su rm O) as (A1 & A2). cbn [lock_ops lrun fold_left].
+    destruct (bytes_dec P (u_pid su)) as [->|Np].
+    + exists su. split; [exact A1|]. exact (Sk u Lu).
+    + exists u. split; [rewrite (A2 P Np); exact Lu|reflexivity].
+  - apply QUIET; [exact I|reflexivity].
+  - apply QUIET; [exact I|reflexivity].
+Qed.
+
+(* ---- histories -------------------------------------------------------------------------------- *)
+Fixpoint run_ops (w : world) (l : list (action * oracle)) (P : bytes) : list (list lop) :=
+  match l with
+  | [] => []
+  | (a, orc) :: r => lock_ops w a orc P :: run_ops (fst (step C cfg w a orc)) r P
+  end.
+
+Fixpoint seeds_keep (w : world) (l : list (action * oracle)) : Prop :=
+  match l with
+  | [] => True
+  | (a, orc) :: r => seed_keeps w a /\ seeds_keep (fst (step C cfg w a orc)) r
+  end.
+
+Lemma run_cons w a O l : fst (run C cfg w ((a, O) :: l)) = fst (run C cfg (fst (step C cfg w a O)) l).
+Proof.
+  cbn [run]. destruct (step C cfg w a O) as [w1 o1]. cbn [fst]. destruct (run C cfg w1 l) as [w2 os]. reflexivity.
+Qed.
+
+Lemma run_filed_lemma l : forall w, filed (w_st w) -> filed (w_st (fst (run C cfg w l))).
+Proof.
+  induction l as [|[a O] l IH]; intros w Fl; [exact Fl|].
+  rewrite run_cons. apply IH. apply step_filed_lemma. exact Fl.
+Qed.
+
+Theorem run_applies_machine_lemma l : forall w,
+  NoDup (c_mods cfg) -> has_mod cfg MLock = true -> Forall (fun ao => o_faults (snd ao) = []) l ->
+  filed (w_st w) -> seeds_keep w l ->
+  forall P u, ulookup P (s_users (w_st w)) = Some u ->
+  exists u', ulookup P (s_users (w_st (fst (run C cfg w l)))) = Some u' /\
+             ltriple u' = lrun (lc_of cfg) (ltriple u) (concat (run_ops w l P)).
+Proof.
+  induction l as [|[a O] l IH]; intros w ND HM NF Fl Sk P u Lu.
+  - exists u. split; [exact Lu|reflexivity].
+  - inversion NF as [|? ? N1 N2]; subst. cbn [snd] in N1. destruct Sk as (S1 & S2).
+    destruct (step_applies_machine_lemma w a O ND HM N1 Fl S1 P u Lu) as (u1 & L1 & T1).
+    destruct (IH _ ND HM N2 (step_filed_lemma w a O Fl) S2 P u1 L1) as (u2 & L2 & T2).
+    exists u2. rewrite run_cons. split; [exact L2|].
+    cbn [run_ops concat]. rewrite T2, T1. unfold lrun. rewrite fold_left_app. reflexivity.
+Qed.
+End Admin.
+
+From AB Require Import Spec.C04 Proofs.LockProofs.
+
+(* the stored triple of an account that started fresh (or from any machine history h0) is, after any
+   fault-free history of the system, the declarative reading of the concatenated operation history *)
+Theorem world_refines_lemma C cfg l w :
+  NoDup (c_mods cfg) -> has_mod cfg MLock = true -> Forall (fun ao => o_faults (snd ao) = []) l ->
+  filed (w_st w) -> seeds_keep C cfg w l ->
+  forall P u h0, ulookup P (s_users (w_st w)) = Some u -> ltriple u = lrun (lc_of cfg) l_init h0 ->
+  let H := h0 ++ concat (run_ops C cfg w l P) in
+  exists u', ulookup P (s_users (w_st (fst (run C cfg w l)))) = Some u' /\
+    ltriple u' = lrun (lc_of cfg) l_init H /\
+    u_attempts u' = streak (lc_of cfg) (rev H) /\
+    u_last u' = last_stamp (lc_of cfg) (rev H) /\
+    u_locked u' = locked_until (lc_of cfg) (rev H) /\
+    (forall t, locked_at (ltriple u') t = true <-> t < locked_until (lc_of cfg) (rev H)).
+Proof.
+  intros ND HM NF Fl Sk P u h0 Lu L0 H.
+  destruct (run_applies_machine_lemma C cfg l w ND HM NF Fl Sk P u Lu) as (u' & L' & T').
+  exists u'. split; [exact L'|].
+  assert (TH : ltriple u' = lrun (lc_of cfg) l_init H).
+  { rewrite T', L0. unfold H, lrun. rewrite fold_left_app. reflexivity. }
+  split; [exact TH|].
+  destruct (c04_refines_lemma (lc_of cfg) H) as (R1 & R2 & R3). rewrite <- TH in R1, R2, R3.
+  repeat split; try assumption.
+  - intros Ht. rewrite TH in Ht. apply c04_locked_iff_lemma. exact Ht.
+  - intros Ht. rewrite TH. apply c04_locked_iff_lemma. exact Ht.
+Qed.
+
+(* ---- the hypotheses are satisfiable: a concrete deployment and history --------------------------- *)
+(* auth + lock, LockAfter 3, window 300 s, duration 3600 s; the harness seeds one fresh account into the
+   empty world; then: three wrong passwords, the right one while locked, a manual unlock, the right one *)
+Definition ex_crypto : crypto := mkCrypto (fun x => x) (fun x => x) (fun h p => beqb h p).
+Definition ex_cfg : config :=
+  mkConfig [MAuth; MLock] false false false false false false 3 300 3600 3600 3600 [] false false false DELETE GET false
+           [] RespNotFound [] [] false false false.
+Definition ex_pid : bytes := bs "a@b.c".
+Definition ex_user : user :=
+  blank_user <| u_pid := ex_pid |> <| u_email := ex_pid |> <| u_password := bs "secret" |> <| u_confirmed := true |>
+             <| u_last := zero_time |> <| u_locked := zero_time |>.
+Definition ex_oracle (t : Z) : oracle := mkOracle t [] [] [] (mkPA false false [] [] [] [] 0).
+Definition ex_login (pw : string) : action :=
+  AReq (mkRequest (bs "b") POST RLogin (bs "/login") [] [] [(bs "email", ex_pid); (bs "password", bs pw)] false).
+Definition ex_start : world := fst (step ex_crypto ex_cfg empty_world (ASeed ex_user []) (ex_oracle 900)).
+Definition ex_history : list (action * oracle) :=
+  [(ex_login "wrong", ex_oracle 1000); (ex_login "wrong", ex_oracle 1010); (ex_login "guess", ex_oracle 1020);
+   (ex_login "secret", ex_oracle 1030); (AUnlock ex_pid, ex_oracle 1040); (ex_login "secret", ex_oracle 1050)].
+
+Lemma world_example_lemma :
+  NoDup (c_mods ex_cfg) /\ has_mod ex_cfg MLock = true /\
+  Forall (fun ao => o_faults (snd ao) = []) ex_history /\
+  filed (w_st ex_start) /\ seeds_keep ex_crypto ex_cfg ex_start ex_history /\
+  ulookup ex_pid (s_users (w_st ex_start)) = Some ex_user /\ ltriple ex_user = l_init /\
+  concat (run_ops ex_crypto ex_cfg ex_start ex_history ex_pid) =
+    [LFail 1000; LFail 1010; LFail 1020; LOkBefore 1030; LUnlock 1040; LOkBefore 1050; LOkAfter 1050] /\
+  exists u', ulookup ex_pid (s_users (w_st (fst (run ex_crypto ex_cfg ex_start ex_history)))) = Some u' /\
+    u_attempts u' = 0 /\ u_last u' = 1050 /\ u_locked u' = 1040 - 3600.
+Proof.
+  assert (ND : NoDup (c_mods ex_cfg)).
+  { cbn. repeat constructor; cbn; intuition discriminate. }
+  assert (HM : has_mod ex_cfg MLock = true) by reflexivity.
+  assert (NF : Forall (fun ao => o_faults (snd ao) = []) ex_history) by (repeat constructor).
+  assert (Fl : filed (w_st ex_start)).
+  { apply step_filed_lemma. split; [constructor|intros k u []]. }
+  assert (Sk : seeds_keep ex_crypto ex_cfg ex_start ex_history) by (cbn [ex_history seeds_keep seed_keeps ex_login]; tauto).
+  assert (Lu : ulookup ex_pid (s_users (w_st ex_start)) = Some ex_user) by (vm_compute; reflexivity).
+  assert (L0 : ltriple ex_user = l_init) by reflexivity.
+  assert (Ops : concat (run_ops ex_crypto ex_cfg ex_start ex_history ex_pid) =
+                [LFail 1000; LFail 1010; LFail 1020; LOkBefore 1030; LUnlock 1040; LOkBefore 1050; LOkAfter 1050])
+    by (vm_compute; reflexivity).
+  repeat (split; [assumption|]).
+  destruct (world_refines_lemma ex_crypto ex_cfg ex_history ex_start ND HM NF Fl Sk ex_pid ex_user [] Lu L0)
+    as (u' & L' & _ & R1 & R2 & R3 & _).
+  rewrite Ops in R1, R2, R3. cbn [app] in R1, R2, R3.
+  exists u'. split; [exact L'|]. rewrite R1, R2, R3. vm_compute. repeat split; reflexivity.
+Qed.
+
+(* ---- [lock_ops] spelled out ------------------------------------------------------------------------ *)
+Theorem step_filed_keyed_lemma C cfg w a O :
+  filed (w_st w) -> filed (w_st (fst (step C cfg w a O))) /\ keyed (w_st (fst (step C cfg w a O))).
+Proof. intros Fl. pose proof (step_filed_lemma C cfg w a O Fl) as F. split; [exact F|exact (filed_keyed _ F)]. Qed.
+
+Lemma lock_ops_request_lemma C cfg w req O P :
+  lock_ops C cfg w (AReq req) O P =
+  match ckind_of cfg req with
+  | Some k =>
+      match req_tgt (env_of C cfg w req O) k (s_users (w_st w)) with
+      | Some (P0, ops) => if beqb P P0 then ops else []
+      | None => []
+      end
+  | None => []
+  end.
+Proof.
+  unfold lock_ops, serve_tgt, t_ops. cbn [e_cfg e_req env_of]. destruct (ckind_of cfg req); reflexivity.
+Qed.
+
+(* ... for instance a password login: one LFail on the named account when the password is wrong, what a
+   login applies when it is right, nothing when the body does not parse or the account is unknown *)
+Lemma lock_ops_login_lemma C cfg w req O P :
+  q_route req = RLogin -> q_meth req = POST -> has_mod cfg MAuth = true ->
+  let E := env_of C cfg w req O in
+  let pid := aget (pid_field E) (values E) in
+  lock_ops C cfg w (AReq req) O P =
+  if readable E then
+    match ulookup pid (s_users (w_st w)) with
+    | Some u =>
+        if beqb P pid then
+          (if pwcheck C (u_password u) (aget f_password (values E))
+           then ok_ops E (blocked E u || enrolled E u) else [LFail (o_now O)])
+        else []
+    | None => []
+    end
+  else [].
+Proof.
+  intros Hr Hm Ha E pid. rewrite lock_ops_request_lemma. unfold ckind_of. rewrite Hr, Hm, Ha.
+  cbn [req_tgt]. unfold login_tgt. fold E. destruct (readable E); [|reflexivity]. fold pid.
+  destruct (ulookup pid (s_users (w_st w))) as [u|]; [|reflexivity].
+  destruct (beqb P pid); [|reflexivity]. unfold login_verdict.
+  change (e_C E) with C. destruct (pwcheck C (u_password u) (aget f_password (values E))); reflexivity.
+Qed.
